@@ -39,3 +39,21 @@ Definition ev_src_eqb (ev : event) (s : string) : bool := match e_kind ev with E
 (* max(x0 :: xs, key=...): the first element with the maximal key *)
 Definition py_max_by {A} (key : A -> nat) (x0 : A) (xs : list A) : A :=
   fold_left (fun best x => if Nat.ltb (key best) (key x) then x else best) xs x0.
+
+(* ---- guards (coq/Gen/GenGuard.v: the composite part of _is_guard_satisfied) ---- *)
+Definition g_is_composite (g : guard) : bool := match g with GAnd _ | GOr _ | GNot _ => true | _ => false end.
+Definition g_type_is_and (g : guard) : bool := match g with GAnd _ => true | _ => false end.
+Definition g_type_is_or (g : guard) : bool := match g with GOr _ => true | _ => false end.
+Definition g_children (g : guard) : list guard := match g with GAnd l | GOr l => l | GNot x => [x] | _ => [] end.
+(* all(f(x) for x in l) / any(...): left to right, stopping at the first False / True; an exception raised by an element
+   that is reached (None) leaves the whole expression *)
+Fixpoint py_all {A} (f : A -> option bool) (l : list A) : option bool :=
+  match l with
+  | [] => Some true
+  | x :: r => match f x with None => None | Some false => Some false | Some true => py_all f r end
+  end.
+Fixpoint py_any {A} (f : A -> option bool) (l : list A) : option bool :=
+  match l with
+  | [] => Some false
+  | x :: r => match f x with None => None | Some true => Some true | Some false => py_any f r end
+  end.
